@@ -310,6 +310,24 @@ def _signal_case(case):
                                  % (rep_, np.asarray(out.values)[:3].tolist(), exp[:3].tolist())))
         if not np.array_equal(np.asarray(fsig.values), vv) or fsig.value_type != T.voltage:
             fails.append(_sf("input-mutated", kind, "apply_response modified the FunctionSignal it was given"))
+        # a polarization without a direction (and a direction without a polarization): the missing one contributes a gain of 1;
+        # positional arguments mean the same as the keywords (signal, direction, polarization) on antennas and systems alike
+        s0 = Signal(t, base[3], T.field)
+        ref0, _ = dft.filtered_reference(base[3], DT, resp, False)
+        both = np.asarray(obj.apply_response(s0, direction=d, polarization=p).values)
+        n += 3
+        only_p = np.asarray(obj.apply_response(s0, polarization=p).values)
+        only_d = np.asarray(obj.apply_response(s0, direction=d).values)
+        if not np.max(np.abs(only_p - ref0 * pg * eff / factor)) <= 1e-12:
+            fails.append(_sf("polarization-without-direction", kind, "apply_response(signal, polarization=p): %s..., filtered * polarization "
+                             "gain * efficiency / factor = %s..." % (only_p[:3].tolist(), (ref0 * pg * eff / factor)[:3].tolist())))
+        if not np.max(np.abs(only_d - ref0 * dg * eff / factor)) <= 1e-12:
+            fails.append(_sf("direction-without-polarization", kind, "apply_response(signal, direction=d): %s..., filtered * directional "
+                             "gain * efficiency / factor = %s..." % (only_d[:3].tolist(), (ref0 * dg * eff / factor)[:3].tolist())))
+        pos = np.asarray(obj.apply_response(s0, d, p).values)
+        if not np.array_equal(pos, both):
+            fails.append(_sf("positional-arguments", kind, "apply_response(signal, d, p) differs from apply_response(signal, direction=d, "
+                             "polarization=p)"))
         # receive of ONE signal (not a list) stores exactly what apply_response returns, for either force_real
         for fr in (False, True):
             ant.clear()
